@@ -346,6 +346,12 @@ class NPShim:
     def arange(self, *a):
         return list(range(*[int(x) for x in a]))
 
+    def repeat(self, x, n, axis=None):
+        x = to_obj(unwrap(x))
+        if not is_arr(x):
+            x = np.array([x], dtype=object)
+        return np.repeat(x, int(n), axis=axis)
+
     def tile(self, x, reps):
         return np.tile(to_obj(unwrap(x)), reps)
 
@@ -703,9 +709,9 @@ class Interp:
         return self.call_func(func, list(args), dict(kwargs or {}))
 
     @_entry
-    def call_func(self, func: Func, args, kwargs):
+    def call_func(self, func: Func, args, kwargs, _bypass=False):
         key = func.ref
-        if key in self.intercepts:
+        if key in self.intercepts and not _bypass:
             return self.intercepts[key](self, args, kwargs)
         if self.depth >= self.MAX_DEPTH:
             raise Unsupported("inlining depth exceeded at %s" % func.ref)
@@ -852,6 +858,9 @@ class Interp:
 
     def assign(self, t, v, env):
         if isinstance(t, ast.Name):
+            ov = self.config.get("override_locals")
+            if ov and env.func is not None and (env.func.ref, t.id) in ov:
+                v = ov[(env.func.ref, t.id)]
             env.vars[t.id] = v
         elif isinstance(t, (ast.Tuple, ast.List)):
             vv = unwrap(v)
